@@ -3,6 +3,7 @@ import FranzVerif.Proof.C30
 import FranzVerif.Proof.C30Ring
 import FranzVerif.Proof.C30Proto
 import FranzVerif.Proof.C30Spec
+import FranzVerif.Proof.C30SpecRing
 /-! C30 — "Work queues and work latches never lose or duplicate work".
 
 Models: `Model.C30` (`workLoop` as a CAS automaton with one action per atomic Load/CAS/Store; `ring[T]` as a
@@ -291,6 +292,45 @@ theorem queue_no_lost_pusher_wakeup (r0 : Ring) (n : Nat) (s : QS) (h0 : freshRi
   · cases hd : s.r.hasCond
     · exact absurd (hc.noCond hd) hp
     · rfl
+
+/-- **Model ⊨ Spec.** For every protocol run of the model from a fresh ring — any number of threads, any
+    interleaving of blocking/forced pushes, resumes, dropPeeks, die, empty — the executable Spec the driver evaluates
+    on the implementation's logs replays the run's event log without error (FIFO order, `first` iff empty, dead
+    rejects, blocks only while full, completes a blocking push only when not full, never two workers); and on a
+    completed run (all threads idle) the whole `ringSpec` holds: everything accepted was handed exactly once in push
+    order, the queue is empty, no worker and no blocked pusher remains. -/
+theorem queue_model_satisfies_spec (r0 : Ring) (n : Nat) (as : List (Nat × QAct)) (s : QS) (evs : List Spec.C30.REv)
+    (h0 : freshRing r0) (hr : qrunEv (QS.init r0 n) as = some (s, evs)) :
+    (∃ σ, Spec.C30.ringSpec.go r0.maxLen true evs {} = .ok σ) ∧
+    ((∀ l ∈ s.pcs, l = QLoc.idle) → Spec.C30.ringSpec r0.maxLen true evs [] = none) := by
+  have hrel0 : Rel (QS.init r0 n) {} := by
+    rcases h0 with h | ⟨m, h⟩ <;> subst h <;>
+      exact ⟨rfl, rfl, by simp [QS.init, QS.workers, List.countP_replicate], rfl, rfl⟩
+  obtain ⟨σ, hgo, ⟨hq, hd, hw, hh, ha⟩, hI, _⟩ := sim_run _ s as evs {} (qinv_init r0 n h0) hrel0 hr
+  have hgo' : Spec.C30.ringSpec.go r0.maxLen true evs {} = .ok σ := hgo
+  refine ⟨⟨σ, hgo'⟩, fun hidle => ?_⟩
+  have hw0 : s.workers = 0 := by
+    unfold QS.workers
+    rw [List.countP_eq_zero]
+    intro l hl; rw [hidle l hl]; simp
+  have hl0 : s.r.l = 0 := by
+    have := hI.w; rw [hw0] at this
+    by_cases h : s.r.l = 0
+    · exact h
+    · rw [if_neg h] at this; cases this
+  have habs : s.r.abs = [] := abs_nil_of_l0 s.r hl0
+  have hha : σ.handed = σ.accepted := by
+    have := hI.q; rw [habs] at this; simp at this; rw [hh, ha]; exact this
+  simp [Spec.C30.ringSpec, hgo', hha, hq, habs, hw, hw0]
+
+/-- non-vacuity of the Spec theorem: the bounded run of the example below, completed, with its event log -/
+example : ∃ s evs, qrunEv (QS.init (Ring.initMaxLen 2) 3) [(0, .push 1 true), (2, .push 2 true), (1, .push 3 true),
+      (0, .dropPeek 0), (1, .resume), (2, .die), (0, .dropPeek 0), (0, .dropPeek 0), (2, .push 9 false)] = some (s, evs) ∧
+    (∀ l ∈ s.pcs, l = QLoc.idle) ∧
+    evs = [.push 0 1 true true true false, .handed 0 1, .push 2 2 true true false false, .blocked 1,
+           .drop 0 true 2 true false, .handed 0 2, .push 1 3 true true false false, .die 2,
+           .drop 0 true 3 true true, .handed 0 3, .drop 0 true 0 false true, .push 2 9 false true false true] :=
+  ⟨_, _, rfl, by decide, by decide⟩
 
 /-- non-vacuity: bounded ring (maxLen 2), thread 0 pushes twice (becomes the worker at the first), thread 1 blocks
     on the third push, the worker's dropPeek wakes it, it resumes and pushes; then `die`. -/
